@@ -582,3 +582,30 @@ def m11(ctx):
 def m12_rp(ctx):
     from .c04 import reader_purity_obligations
     return reader_purity_obligations(ctx)
+
+
+@rule("C17", "M13", floor=1, kind="S",
+      desc="the data element is the body, byte for byte: where a data property decodes the stored bytes it uses plain utf-8 "
+           "(not utf-8-sig, which drops a leading byte order mark, nor an error handler that replaces bytes) - the ETag in the "
+           "same response is that of the full blob")
+def m13(ctx):
+    obs = []
+    for pq, _ct, _rq in DATA_PROPS:
+        fi = ctx.home_method(pq, "get_value_ext")
+        n = 0
+        for x in walk_local(fi):
+            if isinstance(x, ast.Call) and isinstance(x.func, ast.Attribute) and x.func.attr == "decode":
+                n += 1
+                codec = ctx.P.try_fold(fi.module, x.args[0]) if x.args else "utf-8"
+                for k in x.keywords:
+                    if k.arg == "encoding":
+                        codec = ctx.P.try_fold(fi.module, k.value)
+                lossy = [src(a) for a in x.args[1:]] + [src(k.value) for k in x.keywords if k.arg == "errors"]
+                ok = isinstance(codec, str) and codec.lower().replace("_", "-") in ("utf-8", "utf8") and not any("replace" in l or "ignore" in l for l in lossy)
+                obs.append(ctx.ob(ok, fi.qualname, "%s:%d" % (fi.module.rel, x.lineno), "body decoded as plain utf-8", "decode(%r)" % (codec,),
+                                  "%s decodes the body with `%s`: the text put into the data element is no longer the stored bytes (a leading byte "
+                                  "order mark is dropped / bytes are replaced), while GET serves - and the ETag names - the full blob"
+                                  % (fi.short, src(x)[:50])))
+    if not obs:
+        raise AnalysisError("data properties: no decode() of the body found")
+    return obs
